@@ -6,7 +6,9 @@ RULE = ("cases = PlyEncoder/StlEncoder/ObjEncoder outputs for random meshes and 
         "attribute seams, degenerate faces, optional normals/tex-coords/colours, magnitudes 1e-6..1e6, for PLY/STL also NaN/"
         "inf/denormal bit patterns) compared byte for byte with the model writers; PlyDecoder/StlDecoder/ObjDecoder results "
         "(full attribute tables, point maps, faces) on those files and on truncated/corrupted/hand-built unusual files compared "
-        "with the model readers; a case is distinct by its text; every case runs one writer or one reader, so all count as "
+        "with the model readers; boundary files aimed at the case splits of the composed PLY proof (first data byte 0x0A/0x0D/blank right "
+        "behind 'end_header\\n', 0..3 points, faces using the last point, int32 positions, 0..4 colour components, tex-coords of each "
+        "nameable type, bytes following the file); a case is distinct by its text; every case runs one writer or one reader, so all count as "
         "non-trivial; '!' lines = full write->read on the implementation violating the property")
 MODEL_VO = ["Model/Dedup.vo", "Model/IoText.vo", "Model/PlyModel.vo", "Model/StlModel.vo", "Model/ObjModel.vo", "Base/DriverSupport.vo"]
 
